@@ -101,6 +101,9 @@ type Exec struct {
 	lockSeq  int
 	safety   bool // generate safety obligations for the top frame
 	probing  int
+	fuel, unfoldDepth int
+	fuelOverride int
+	unfolded map[string]bool
 	interpretNL bool
 	pureExpanding map[string]int
 }
